@@ -225,6 +225,14 @@ RepLexOK(lex, la, seq) ==
        ELSE la < Len(lex) /\ r[2] = lex[la + 1][1] /\ r[3] = lex[la + 1][2] /\ r[4] = lex[la + 1][3]
             /\ RepLexOK(lex, la + 1, Tail(seq))
 
+\* the total cost of a reported sequence, by the tokens it names (inserted tokens and the
+\* tokens of the lexemes it says it deletes)
+RECURSIVE RepCostNamed(_, _)
+RepCostNamed(costs, seq) ==
+  IF seq = <<>> THEN 0
+  ELSE LET r == Head(seq) IN
+       (IF r[1] \in {"i", "d"} /\ r[2] >= 0 /\ r[2] < Len(costs) THEN Cost(costs, r[2]) ELSE 0) + RepCostNamed(costs, Tail(seq))
+
 \* apply one repair sequence to a full configuration (apply_repairs + lr_upto)
 RECURSIVE ApplyFull(_, _, _, _)
 ApplyFull(t, lex, cfg, seq) ==
@@ -290,6 +298,8 @@ SimRec(t, e, cfg0, errs, hooks, k, devs, opt) ==
                               \cup IfDev(\A j \in 1 .. Len(reps[i]) : reps[i][j] # <<"i", EOF>>, "C06", "EOF inserted", reps[i])
                               \cup IfDev(SeqCostOf(toks, e.costs, cfg.la, reps[i]) = SeqCostOf(toks, e.costs, cfg.la, reps[1]),
                                          "C06", "unequal costs", <<reps[1], reps[i]>>)
+                              \cup IfDev(RepCostNamed(e.costs, er.repairs[i]) = RepCostNamed(e.costs, er.repairs[1]),
+                                         "C06", "unequal costs by the lexemes the sequences name", <<er.repairs[1], er.repairs[i]>>)
                               : i \in 1 .. Len(reps) }
                 d5 == IF On("CHK_C06") THEN IfDev(RankOK(reps), "C06", "ranking / duplicates", reps) ELSE {}
                 cfg2 == [ApplyFull(t, lex, [cfg EXCEPT !.st = "run"], reps[1]) EXCEPT !.st = "run"]
